@@ -873,3 +873,35 @@ _run_c01_d = run
 def run(ctx):  # noqa: F811
     _run_c01_d(ctx)
     r01_8(ctx, ctx.model)
+
+
+# ---------------------------------------------------------------------------------------------------------------- R01.9
+def r01_9(ctx, m, rid="R01.9"):
+    """partial-space diagonal: the diagonal's axes are in the order of `spaces`, the reshape assumes the order of the domain"""
+    D = m.cls(OPS + "diagonal_operator", "DiagonalOperator")
+    init = D.methods["__init__"]
+    ctx.rule(rid, "DiagonalOperator(diagonal, domain, spaces): the constructor pairs diagonal.domain[i] with domain[spaces[i]] for ANY "
+                  "order of `spaces`, and reshapes the values to the domain-ordered broadcast shape: before that reshape the axes are "
+                  "permuted into domain order (a transpose keyed by the sorted order of the spaces), or unsorted spaces are refused - "
+                  "otherwise spaces=(2, 0) silently uses transposed entries", floor=1)
+    ctx.saw_func(init)
+    key = f"{init.key}::diagonal axes are brought into domain order before the reshape"
+    resh = [z for z in ast.walk(init.node) if isinstance(z, ast.Call) and isinstance(z.func, ast.Attribute) and z.func.attr == "reshape"]
+    if not resh:
+        ctx.und(rid, key, "no reshape of the diagonal found", init)
+        return
+    tr = [z for z in ast.walk(init.node) if isinstance(z, ast.Call) and (call_name(z) in ("transpose", "moveaxis", "swapaxes", "einsum"))]
+    keyed = any(isinstance(z, ast.Call) and call_name(z) in ("argsort", "sorted") and "spaces" in src(z) for z in ast.walk(init.node))
+    refuse = any(isinstance(st, ast.If) and any(isinstance(b, ast.Raise) for b in st.body) and "sorted" in src(st.test) and "spaces" in src(st.test)
+                 for st in ast.walk(init.node))
+    ctx.check(rid, key, bool((tr and keyed) or refuse),
+              "transpose keyed by the sorted order of the spaces" if (tr and keyed) else ("unsorted spaces are refused" if refuse else
+              "the values are reshaped in the order the diagonal came in, whatever the order of `spaces`"), init, resh[0])
+
+
+_run_c01_e = run
+
+
+def run(ctx):  # noqa: F811
+    _run_c01_e(ctx)
+    r01_9(ctx, ctx.model)
